@@ -25,7 +25,7 @@ PROFILES = {
     "C05": [("burst", 15), ("mix", 8), ("pressure", 5)],
     "C06": [("pressure", 18), ("fill", 12), ("mix", 4)],
     "C07": [("ttl", 10), ("mix", 8), ("burst", 8)],
-    "C08": [("ttl", 12), ("mix", 8), ("seq", 6)],
+    "C08": [("ttl", 10), ("seq", 14), ("mix", 6)],
     "C09": [("ttl", 15), ("seq", 8), ("reads", 5)],
     "C10": [("ttl", 20), ("seq", 8)],
     "C11": [("burst", 20), ("mix", 8)],
